@@ -2,6 +2,7 @@ import Driver.KeyOps
 import Driver.SerOps
 import Driver.DagOps
 import Driver.RangeOps
+import Driver.GeomOps
 /-
   Line-protocol driver: one operation per input line, one canonical result line per operation.
   Imports Model only (core Lean), so it links as a `lean_exe`.
@@ -23,6 +24,9 @@ def step (st : St) (line : String) : St × String :=
   | some r => (st, r)
   | none =>
   match rangeOps w with
+  | some r => (st, r)
+  | none =>
+  match geomOps w with
   | some r => (st, r)
   | none => (st, "bad-op")
 
